@@ -74,6 +74,10 @@ def Res.bind {α β : Type} (r : Res α) (f : α → Mach → Res β) : Res β :
   | .panic m => .panic m
   | .stuck w => .stuck w
 
+@[simp] theorem Res.bind_ok {α β : Type} (a : α) (m : Mach) (f : α → Mach → Res β) : (Res.ok a m).bind f = f a m := rfl
+@[simp] theorem Res.bind_panic {α β : Type} (m : Mach) (f : α → Mach → Res β) : (Res.panic m : Res α).bind f = .panic m := rfl
+@[simp] theorem Res.bind_stuck {α β : Type} (w : String) (f : α → Mach → Res β) : (Res.stuck w : Res α).bind f = .stuck w := rfl
+
 def lookup (x : String) : List (String × V) → Option V
   | [] => none
   | (y, v) :: r => if x = y then some v else lookup x r
@@ -110,47 +114,60 @@ def arith (op : String) (a b : Nat) : Option V :=
   | "-" => if b ≤ a then some (.nat (a - b)) else none     -- an underflow is profile dependent: outside the subset
   | _ => none
 
-/-- a method call whose receiver and arguments are already evaluated -/
-def callMethod (env : Env) (recvIsSelf : Bool) (recvVar : Option String) (recv : V) (m : String) (args : List V)
+/-- an owned value passed by value to `push` is moved: a parameter is marked, a local variable is emptied -/
+def moveArg (argParam : Option Nat) (argVar : Option String) (mc : Mach) : Mach :=
+  let mc := match argParam with | some k => { mc with movedPs := k :: mc.movedPs } | none => mc
+  match argVar with | some x => { mc with locals := setLocal x .moved mc.locals } | none => mc
+
+/-- a method of the vector itself (`self.m(args)`) -/
+def callSelf (env : Env) (m : String) (args : List V) (argParam : Option Nat) (argVar : Option String) (mc : Mach) : Res V :=
+  let M := env.M
+  if m = "len" then (match args with | [] => .ok (.nat (M.len mc.self)) mc | _ => .stuck "len")
+  else if m = "is_empty" then (match args with | [] => .ok (.bool (M.len mc.self == 0)) mc | _ => .stuck "is_empty")
+  else if m = "pop" then (match args with | [] => afterSelf mc (M.pop mc.self) (fun o => .opt o.ret) | _ => .stuck "pop")
+  else if m = "push" then
+    (match args with | [.elem e] => afterSelf (moveArg argParam argVar mc) (M.push mc.self e) (fun _ => .unit) | _ => .stuck "push")
+  else if m = "truncate" then
+    (match args with | [.nat k] => afterSelf mc (M.truncate mc.self k) (fun _ => .unit) | _ => .stuck "truncate")
+  else if m = "reserve" then (match args with | [.nat _] => .ok .unit mc | _ => .stuck "reserve")
+  else if m = "as_mut_slice" then (match args with | [] => .ok .view mc | _ => .stuck "as_mut_slice")
+  else .stuck ("self." ++ m)
+
+/-- a method of a local value -/
+def callOther (env : Env) (recvVar : Option String) (recv : V) (m : String) (args : List V)
     (argParam : Option Nat) (argVar : Option String) (mc : Mach) : Res V :=
   let M := env.M
-  -- an owned value passed by value to `push` is moved: a parameter is marked, a local variable is emptied
-  let moveArg (mc : Mach) : Mach :=
-    let mc := match argParam with | some k => { mc with movedPs := k :: mc.movedPs } | none => mc
-    match argVar with | some x => { mc with locals := setLocal x .moved mc.locals } | none => mc
-  if recvIsSelf then
-    match m, args with
-    | "len", [] => .ok (.nat (M.len mc.self)) mc
-    | "is_empty", [] => .ok (.bool (M.len mc.self == 0)) mc
-    | "pop", [] => afterSelf mc (M.pop mc.self) (fun o => .opt o.ret)
-    | "push", [.elem e] => afterSelf (moveArg mc) (M.push mc.self e) (fun _ => .unit)
-    | "truncate", [.nat k] => afterSelf mc (M.truncate mc.self k) (fun _ => .unit)
-    | "reserve", [.nat _] => .ok .unit mc
-    | "as_mut_slice", [] => .ok .view mc
-    | _, _ => .stuck ("self." ++ m)
-  else
-    match recv, m, args with
-    | .view, "get", [.nat i] => .ok (.oref (if i < M.len mc.self then some i else none)) mc
-    | .view, "get_mut", [.nat i] => .ok (.oref (if i < M.len mc.self then some i else none)) mc
-    | .view, "swap", [.nat a, .nat b] => afterSelf mc (M.swap mc.self a b) (fun _ => .unit)
-    | .oref (some i), "unwrap", [] => .ok (.eref i) mc
-    | .oref none, "unwrap", [] => .panic mc
-    | .cont c, "push", [.elem e] =>
-      (match recvVar with
-       | some x =>
+  match recv with
+  | .view =>
+    if m = "get" ∨ m = "get_mut" then
+      (match args with | [.nat i] => .ok (.oref (if i < M.len mc.self then some i else none)) mc | _ => .stuck "get")
+    else if m = "swap" then
+      (match args with | [.nat a, .nat b] => afterSelf mc (M.swap mc.self a b) (fun _ => .unit) | _ => .stuck "swap")
+    else .stuck ("view." ++ m)
+  | .oref o =>
+    if m = "unwrap" then (match o with | some i => .ok (.eref i) mc | none => .panic mc) else .stuck ("option." ++ m)
+  | .cont c =>
+    if m = "push" then
+      (match args, recvVar with
+       | [.elem e], some x =>
          let o := M.push c e
-         let mc := moveArg mc
+         let mc := moveArg argParam argVar mc
          let mc' := { mc with locals := setLocal x (.cont o.st) mc.locals, ev := mc.ev ++ o.ev }
          if o.panicked then .panic mc' else .ok .unit mc'
-       | none => .stuck "push on a temporary")
-    | .src c, "len", [] => .ok (.nat (M.len c)) mc
-    | .src c, "iter", [] => .ok (.srcIter c) mc
-    | .sref c i, "to_owned", [] =>
+       | _, _ => .stuck "push on a local vector")
+    else .stuck ("vector." ++ m)
+  | .src c =>
+    if m = "len" then .ok (.nat (M.len c)) mc
+    else if m = "iter" then .ok (.srcIter c) mc
+    else .stuck ("slice." ++ m)
+  | .sref c i =>
+    if m = "to_owned" then
       let e := Model.rowCols c i
-      .ok (.elem e) { mc with ev := mc.ev ++ { clones := e.flat }, made := mc.made }
-    | .elem e, "as_ref", [] => .ok (.vref e) mc
-    | .vref e, "to_owned", [] => .ok (.elem e) { mc with ev := mc.ev ++ { clones := e.flat } }
-    | _, _, _ => .stuck ("." ++ m)
+      .ok (.elem e) { mc with ev := mc.ev ++ { clones := e.flat } }
+    else .stuck ("ref." ++ m)
+  | .elem e => if m = "as_ref" then .ok (.vref e) mc else .stuck ("value." ++ m)
+  | .vref e => if m = "to_owned" then .ok (.elem e) { mc with ev := mc.ev ++ { clones := e.flat } } else .stuck ("ref." ++ m)
+  | _ => .stuck ("." ++ m)
 
 /-- the user callback `f(slice.get(i).unwrap())`: the element is recorded as shown, a `retain_mut` callback may write
     to it, the callback may panic, else it answers `keep` — all indexed by the number of calls so far -/
@@ -184,9 +201,9 @@ def eval (env : Env) : Ex → Mach → Res V
   | .mcall recv mth args, m =>
     match recv with
     | .self_ => (evalList env args m).bind fun vs m =>
-        callMethod env true none .unit mth vs (args.head?.bind asParam) (args.head?.bind asVar) m
+        callSelf env mth vs (args.head?.bind asParam) (args.head?.bind asVar) m
     | r => (eval env r m).bind fun rv m => (evalList env args m).bind fun vs m =>
-        callMethod env false (asVar r) rv mth vs (args.head?.bind asParam) (args.head?.bind asVar) m
+        callOther env (asVar r) rv mth vs (args.head?.bind asParam) (args.head?.bind asVar) m
   | .fcall p args, m =>
     (evalList env args m).bind fun vs m =>
       match p, vs with
